@@ -36,7 +36,7 @@ func panicTag(msg string) string {
 		return "issuance-seize-locked-coins"
 	case strings.Contains(msg, "x/kavadist") && strings.Contains(msg, "nil pointer"):
 		return "kavadist-zero-mint-nil-amount"
-	case strings.Contains(msg, "x/kavadist") && strings.Contains(msg, "negative coins"):
+	case strings.Contains(msg, "x/kavadist") && (strings.Contains(msg, "negative coins") || strings.Contains(msg, "is smaller than") || strings.Contains(msg, "insufficient funds")):
 		return "kavadist-partner-rewards-exceed-mint"
 	}
 	// module of the innermost Kava frame, e.g. "x/hard"
@@ -73,12 +73,15 @@ func main() {
 	cfgF10.RewardInAssetDenom = true
 	cfgInfra := cfg
 	cfgInfra.KavadistInfra = true
+	cfgF11 := cfgInfra
+	cfgF11.KavadistPartnerRps = 50_000_000
 	cfg1 := cfg
 	cfg1.LiquidationInterval = 1
 	plans := []history.Plan{
 		{Name: "F2-cdp-debt-split", Cfg: cfg1, Script: history.ScenarioF2()},
 		{Name: "F10-issuance-locked-coins", Cfg: cfgF10, Script: history.ScenarioF10()},
 		{Name: "F12-kavadist-sub-second", Cfg: cfgInfra, Script: history.ScenarioSubSecond()},
+		{Name: "F11-kavadist-partner-rewards", Cfg: cfgF11, Script: history.ScenarioPartnerRewards()},
 		{Name: "hard-multi-denom-liquidation", Cfg: cfg, Script: history.ScenarioHardMultiDenom(), Blocks: 20, MaxTxs: 5, PriceEvery: 5},
 		{Name: "gov-tally-bkava", Cfg: cfg, Script: history.ScenarioGovTallyBkava(cfg.GovVotingPeriod), Blocks: 15, MaxTxs: 5, PriceEvery: 5},
 		{Name: "committee-param-change", Cfg: cfg, Script: history.ScenarioCommitteeParamChange(), Blocks: 15, MaxTxs: 5, PriceEvery: 5},
